@@ -39,6 +39,16 @@ fn typed_roundtrip(v: &Value) -> Option<Result<Value, String>> {
     })
 }
 
+/// everything observable of encoding and decoding one value through Hayson
+pub fn hayson_observation(v: &V) -> String {
+    let lv = to_lib(v);
+    let t = serde_json::to_string(&lv).map_err(|e| e.to_string());
+    let tree = serde_json::to_value(&lv).map_err(|e| e.to_string());
+    let back = t.as_ref().ok().map(|t| serde_json::from_str::<Value>(t).map(|b| format!("{:?}", from_lib(&b))).map_err(|e| e.to_string()));
+    let back2 = tree.as_ref().ok().map(|t| serde_json::from_value::<Value>(t.clone()).map(|b| format!("{:?}", from_lib(&b))).map_err(|e| e.to_string()));
+    format!("{t:?}|{back:?}|{back2:?}")
+}
+
 pub fn hayson_roundtrip(v: &V) -> Verdict {
     let lv = to_lib(v);
     let enc = guarded(|| {
@@ -144,6 +154,33 @@ pub fn run(tier: Tier) -> i32 {
     });
     run.absorb(l);
 
+    let pool = super::c01::history_pool();
+    let l = super::common::history_pairs("hayson-codec", &pool, &hayson_observation, &|v: &V| to_json(v));
+    run.absorb(l);
+
+    // two values in one document: [w, v, {a:w b:v}] for all ordered pairs of the pool (state inside
+    // one decode or encode call: a "last unit / last zone / last string" memo)
+    {
+        let pool = super::c01::history_pool();
+        let l = par_for(pool.len(), |i, local| {
+            for v in pool.iter() {
+                let doc = V::List(vec![pool[i].clone(), v.clone(), V::dict(&[("a", pool[i].clone()), ("b", v.clone())])]);
+                local.eval();
+                if let Err((stage, d)) = hayson_roundtrip(&doc) {
+                    // minimise to the pair
+                    let pair = V::List(vec![pool[i].clone(), v.clone()]);
+                    let (stage, d, shown) = match hayson_roundtrip(&pair) {
+                        Err((s2, d2)) => (s2, d2, pair),
+                        Ok(()) => (stage, d, doc),
+                    };
+                    local.fail(&format!("{stage}:two-values-in-one-document:{}", crate::model::shrink::shape_sig(&shown)), json!({"value": to_json(&shown)}), d);
+                }
+            }
+            local.count("pair-documents");
+        });
+        run.absorb(l);
+    }
+
     let shards = u::container_shards(tier);
     let l = par_for(shards.len(), |i, local| {
         shards[i](&mut |v| {
@@ -214,5 +251,12 @@ pub fn run(tier: Tier) -> i32 {
 }
 
 pub fn replay(case: &J) -> Verdict {
+    if case["history_pair"].is_string() {
+        let (w, v) = (crate::model::v::from_json(&case["before"]), crate::model::v::from_json(&case["then"]));
+        let alone = std::thread::scope(|s| s.spawn(|| hayson_observation(&v)).join().unwrap());
+        let _ = hayson_observation(&w);
+        let after = hayson_observation(&v);
+        return if alone == after { Ok(()) } else { Err(("history-changes-output:hayson-codec".into(), format!("alone {alone}, after {after}"))) };
+    }
     replay_value(case, &hayson_roundtrip)
 }
